@@ -24,6 +24,7 @@ MODULES = {
     "C10": "vf.c10",
     "C11": "vf.c11",
     "C12": "vf.c12",
+    "C19": "vf.c19",
 }
 
 
